@@ -320,7 +320,7 @@ func init() {
 			"distinct = distinct (world kind, earlier edits, request expression, path); non-trivial = the request evaluated to a change value on the twin",
 		Assumptions: []string{"ingest.Change.Apply on the twin world is the reference for whether applying fails and for the world afterwards",
 			"api.Evaluate on the twin yields the same change value as the evaluation inside the code under test"},
-		Quick:    3000, Thorough: 600000,
+		Quick: 3000, Thorough: 600000,
 		Required: []string{"twin_failed", "twin_ok", "path_grpc", "path_evaluator", "failed_and_reported", "ok_and_ids_checked", "merge_failed"},
 		Run: func(c *core.Ctx) {
 			r := c.R
